@@ -1,4 +1,5 @@
 import Pyrtma.Proofs.ManagerCount
+import Pyrtma.Proofs.ManagerOrder
 /-!
 # C05 — per-connection order, whole frames, sequence numbers
 
@@ -7,7 +8,10 @@ acknowledgements, failure notices, log and periodic manager messages — in **ev
 departed connections alike (`seq_gap_free`, by an invariant carried through the nested failure handling together with
 crash-freedom); every frame is stamped with the previous count plus one (`stamped_with_next_count`); a frame is written
 whole or its connection is removed in the same step (`whole_or_removed`); the emission order of copies follows the
-processing order of the input frames, for all receivers at once (`emission_follows_processing`, `no_late_copies`).
+processing order of the input frames, for all receivers at once (`emission_follows_processing`, `no_late_copies`);
+and globally (`fifo_per_receiver`, `same_relative_order`): label the frames the manager reads by their processing order —
+then every receiver's data frames are in non-decreasing label order after any history, hence messages of one sender
+arrive in the order sent and any two receivers see the frames they both get in the same relative order.
 
 Decided on the implementation (not a theorem): that every captured byte stream parses as whole frames (the model's events
 *are* whole frames; the split into two `sendall` calls is below its granularity).
@@ -99,7 +103,55 @@ theorem seq_gap_free (cfg : Cfg) (ok : CfgOK cfg) (hfuel : cfg.fuel = 0) (rs : L
     ∃ n, countsOf (run cfg rs).out u = iota n ∧ ∀ m, (run cfg rs).find u = some m → m.msgCount = n :=
   Pyrtma.Mgr.seq_gap_free ok hfuel rs u
 
+/-! ## Globally: order of delivery, for every history
+
+The serial number `k` of an input frame is a label (`Body.data k`) the model never looks at; `IncRounds 0 rs` says the
+frames of the history `rs` are labelled in the order the manager processes them. -/
+
+/-- **Per-connection order**: after any history, the data frames written to any connection `u` appear in processing
+order of the input frames (non-decreasing: a frame whose type is the ALL sentinel is written twice to a subscriber of
+everything) — whatever write failures, removals, notices, log messages and statistics happen in between, at any log
+level.  In particular the frames of one sender reach each receiver in the order they were sent. -/
+theorem fifo_per_receiver (cfg : Cfg) (rs : List Round) (hi : IncRounds 0 rs) (u : Nat) :
+    (dataKs (run cfg rs).out u).Pairwise (· ≤ ·) :=
+  (run_ordered cfg rs hi u).1
+
+/-- `a` occurs in `l` with a later occurrence of `b` -/
+def Before (l : List Nat) (a b : Nat) : Prop := ∃ l1 l2, l = l1 ++ a :: l2 ∧ b ∈ l2
+
+/-- **Same relative order at all receivers**: if receiver `u` gets frame `a` before frame `b`, then every receiver `v`
+that gets both gets `a` before `b` too. -/
+theorem same_relative_order (cfg : Cfg) (rs : List Round) (hi : IncRounds 0 rs) (u v a b : Nat) (hab : a ≠ b)
+    (hu : Before (dataKs (run cfg rs).out u) a b)
+    (ha : a ∈ dataKs (run cfg rs).out v) (hb : b ∈ dataKs (run cfg rs).out v) :
+    Before (dataKs (run cfg rs).out v) a b := by
+  have su := fifo_per_receiver cfg rs hi u
+  have sv := fifo_per_receiver cfg rs hi v
+  obtain ⟨l1, l2, e, hb2⟩ := hu
+  rw [e] at su
+  have hle : a ≤ b := by
+    have := (List.pairwise_append.mp su).2.1
+    exact (List.pairwise_cons.mp this).1 b hb2
+  obtain ⟨s1, s2, e2⟩ := List.append_of_mem ha
+  refine ⟨s1, s2, e2, ?_⟩
+  rw [e2] at hb sv
+  rcases List.mem_append.mp hb with h1 | h1
+  · have := (List.pairwise_append.mp sv).2.2 b h1 a (by simp)
+    omega
+  · cases h1 with
+    | head => exact absurd rfl hab
+    | tail _ h2 => exact h2
+
 /-! ### Non-vacuity -/
+/-- two subscribers of type 5000, two frames published: both get frame 3 before frame 4 -/
+def exRounds : List Round :=
+  [{ accept := true }, { accept := true },
+   { reads := [{ uid := 1, h := { k := 1, mtype := 15, nbytes := 4 }, avail := 4, pay := [136, 19, 0, 0] }], writable := [1, 2] },
+   { reads := [{ uid := 2, h := { k := 2, mtype := 15, nbytes := 4 }, avail := 4, pay := [136, 19, 0, 0] }], writable := [1, 2] },
+   { reads := [{ uid := 1, h := { k := 3, mtype := 5000 } }, { uid := 2, h := { k := 4, mtype := 5000 } }], writable := [1, 2] }]
+example : IncRounds 0 exRounds := by simp [IncRounds, IncFrom, lastBound, exRounds]
+example : dataKs (run {} exRounds).out 1 = [3, 4] ∧ dataKs (run {} exRounds).out 2 = [3, 4] := by decide
+
 def exState : State :=
   { mods := [{ uid := 0, connected := true }, { uid := 1, modId := 10, connected := true, subs := [5000], msgCount := 4 }],
     idx := [(5000, [1])], wlist := [1], nextUid := 1 }
